@@ -782,7 +782,8 @@ def complete_ensemble_sift(X, nensembles=4, ensemble_noise=.2,
     res = p.starmap(_sift_with_noise, args)
     imf = np.array([r for r in res]).mean(axis=0)
 
-    args = [(noise[:, ii, None], sift_thresh, 1, imf_opts) for ii in range(nensembles)]
+    args = [(noise[:, ii, None], sift_thresh, 1, None, imf_opts, envelope_opts, extrema_opts)
+            for ii in range(nensembles)]
     res = p.starmap(sift, args)
     noise = noise - np.array([r[:, 0] for r in res]).T
 
@@ -801,7 +802,7 @@ def complete_ensemble_sift(X, nensembles=4, ensemble_noise=.2,
 
         imf = np.concatenate((imf, next_imf), axis=1)
 
-        args = [(noise[:, ii, None], sift_thresh, 1, imf_opts)
+        args = [(noise[:, ii, None], sift_thresh, 1, None, imf_opts, envelope_opts, extrema_opts)
                 for ii in range(nensembles)]
         res = p.starmap(sift, args)
         noise = noise - np.array([r[:, 0] for r in res]).T
